@@ -1,45 +1,11 @@
 import Thanos.Model.ChunkMerge
+import Thanos.Lemmas.ChunkMerge
+import Thanos.Lemmas.ChunkHeap
 import Thanos.Generated.Facts
 /-
   C40 — Offline deduplication of downsampled chunks keeps every aggregate sample.
 -/
 namespace Thanos.Dedup
-
-def tsOf (l : List Sample) : List Int := l.map (·.t)
-
-/-- strictly increasing -/
-def incr : List Int → Bool
-  | a :: b :: rest => decide (a < b) && incr (b :: rest)
-  | _ => true
-
-/-- a well-formed downsampled chunk: all five aggregates, `sum/min/max` on the count's
-    timestamps, the counter on the count's timestamps plus its last one repeated; count
-    timestamps strictly increasing from `mint ≥ 1` to `maxt` -/
-def chunkWF (c : AggrChk) : Bool :=
-  match c.aggr with
-  | [some cnt, some s, some mn, some mx, some ctr] =>
-    incr (tsOf cnt) && (tsOf cnt).head? == some c.mint && (tsOf cnt).getLast? == some c.maxt &&
-    decide (0 < c.mint) &&
-    tsOf s == tsOf cnt && tsOf mn == tsOf cnt && tsOf mx == tsOf cnt && tsOf ctr == tsOf cnt ++ [c.maxt]
-  | _ => false
-
-/-- chunks of one series are ordered and disjoint -/
-def chunksOrdered : List AggrChk → Bool
-  | a :: b :: rest => decide (a.maxt < b.mint) && chunksOrdered (b :: rest)
-  | _ => true
-
-def seriesWF (s : List AggrChk) : Bool := !s.isEmpty && s.all chunkWF && chunksOrdered s
-
-/-- the property on one output chunk: every aggregate has a sample at each timestamp at which
-    the count aggregate has one -/
-def chunkComplete (c : AggrChk) : Bool :=
-  match c.aggr with
-  | [some cnt, a1, a2, a3, a4] =>
-    [a1, a2, a3, a4].all fun a =>
-      match a with
-      | some l => (tsOf cnt).all fun t => (tsOf l).contains t
-      | none => false
-  | _ => false
 
 /-- C40 at full strength for the `toChunk` selected by `chunkFixed` and chunks of `split` samples -/
 def C40_full (chunkFixed : Bool) (split : Nat) : Prop :=
@@ -95,6 +61,46 @@ set_option maxRecDepth 100000 in
 theorem C40_witness_fixed : aggrLens (chunkMerge true true 120 f40Witness) =
     some [[some 120, some 120, some 120, some 120, some 121], [some 2, some 2, some 2, some 2, some 3]] := by
   decide
+
+/-! ### C40 for the repaired `toChunk` -/
+
+/-- **Well-formedness is preserved.**  Merging well-formed downsampled series (any number of
+    series, any chunk cuts, any chunk size `split ≥ 1`) yields only well-formed chunks: in every
+    output chunk `sum`, `min`, `max` have exactly the count's timestamps and the counter has them
+    plus its last sample once more — whether the chunk passed through unchanged, came out of
+    `aggrChunkIterator`, or was merged again with later chunks. -/
+theorem C40_wf_preserved (split : Nat) (hsp : 0 < split) (series : List (List AggrChk))
+    (hwf : series.all seriesWF = true) (out : List AggrChk)
+    (hm : chunkMerge true true split series = some out) : ∀ c ∈ out, chunkWF c = true := by
+  unfold chunkMerge at hm
+  apply dcDrain_wf hsp _ _ out _ hm
+  -- the initial heap holds the input chunks
+  have key : ∀ (ss : List (List AggrChk)) (h : List ChunkIt), HeapAll (fun c => chunkWF c = true) h →
+      (∀ s ∈ ss, ∀ c ∈ s, chunkWF c = true) →
+      HeapAll (fun c => chunkWF c = true) (ss.foldl (fun h s => if s.isEmpty then h else hpush h s) h) := by
+    intro ss
+    induction ss with
+    | nil => intro h hh _; exact hh
+    | cons s ss ih =>
+      intro h hh hs
+      simp only [List.foldl_cons]
+      apply ih
+      · split
+        · exact hh
+        · exact hpush_all hh (hs s (by simp))
+      · exact fun s' hs' => hs s' (by simp [hs'])
+  apply key series [] (by intro it hit; simp at hit)
+  intro s hs c hc
+  have := List.all_eq_true.mp hwf s hs
+  simp only [seriesWF, Bool.and_eq_true] at this
+  exact List.all_eq_true.mp this.1.2 c hc
+
+/-- **C40 holds for the repaired code**, for every chunk size `split ≥ 1` (Prometheus uses 120). -/
+theorem C40_fixed (split : Nat) (hsp : 0 < split) : C40_full true split := by
+  intro series hwf out hm
+  apply List.all_eq_true.mpr
+  intro c hc
+  exact complete_of_wf (C40_wf_preserved split hsp series hwf out hm c hc)
 
 /-! ### regenerated facts: the source has the loop the model (`toChunkFixed`) transliterates -/
 
